@@ -229,8 +229,12 @@ def handleLink : List String → String
 
 /-! ### linkname -/
 
-def ofHex (h : String) : Option Text := (parseHex h).map fun bs => bs.map fun b => Char.ofNat b
-def toHexT (t : Text) : String := toHex (t.map (·.toNat))
+/-- hex of the UTF-8 bytes of a text -/
+def ofHex (h : String) : Option Text :=
+  match parseHex h with
+  | some bs => (String.fromUTF8? (ByteArray.mk (bs.map UInt8.ofNat).toArray)).map String.toList
+  | none => none
+def toHexT (t : Text) : String := toHex ((String.ofList t).toUTF8.toList.map UInt8.toNat)
 
 def parseNode : String → Option Node
   | "missing" => some .missing
@@ -263,7 +267,8 @@ def handleLn : List String → String
   | "file" :: pkg :: uns :: rest =>
     match ofHex pkg, fileDecisions ((ofHex pkg).getD []) (uns == "1") rest with
     | some _, some ds =>
-      let ds := ds.filter (· != "skip")
+      -- the API returns the accepted directives and the errors as two lists, each in comment order
+      let ds := ds.filter (·.startsWith "accept") ++ ds.filter (·.startsWith "err")
       if ds.isEmpty then "-" else " ".intercalate ds
     | _, _ => "bad-op"
   | ["ismethod", pkg, name] =>
@@ -279,6 +284,13 @@ def handleLn : List String → String
       let r := match kind with | "value" => Recv.value t | "pointer" => Recv.pointer t | _ => Recv.none
       toHexT (symbolNew p r n).str
     | _, _, _ => "bad-op"
+  | ["call", how] =>
+    -- the recorded witness: package pa declares `//go:linkname Rev m/pb.revimpl; func Rev(x int) int`
+    let ref : Sym := ⟨"m/pa".toList, "Rev".toList⟩
+    let impl : Sym := ⟨"m/pb".toList, "revimpl".toList⟩
+    match callTarget [⟨ref, impl⟩] [impl, ref] ref (how == "same") with
+    | some _ => "resolved"
+    | none => "unresolved"
   | ["split", ext] =>
     match ofHex ext with
     | some e => let r := splitExt e; s!"{toHexT r.1} {toHexT r.2}"
